@@ -114,6 +114,9 @@ def run_case(c):
         if c.get("json"):
             jkw = c["json"]["kwargs"]
             jex = JsonExporter(dictexporter=ex if c["json"]["custom"] else None, maxlevel=c["jml"], **jkw)
+            if c["json"]["custom"] and c["jml"] is not None:
+                # another JsonExporter sharing the same dict exporter, with its own maxlevel, is merely constructed
+                JsonExporter(dictexporter=ex, maxlevel=c["jml"] + 1, **jkw)
             text = jex.export(root)
             eff = c["jml"] if c["jml"] is not None else (c["ml"] if c["json"]["custom"] else None)
             ref = DictExporter(dictcls=dictcls, maxlevel=eff, **(kw if c["json"]["custom"] else {}))
